@@ -11,7 +11,7 @@
    yet (they need the Coq `Spec.decode` of C04, which is another file). *)
 From Coq Require Import List NArith String.
 From Wbxml Require Import Model.Codec Model.TablesDefs Model.EncWbxml Model.TreeNorm Proofs.EncWbxmlProofs Proofs.EncWbxmlSerialize Proofs.EncWbxmlDenote Proofs.EncWbxmlAbs Proofs.EncWbxmlStrict2 Proofs.EncWbxmlDenote2
-     Model.EncWbxmlEvents Proofs.EncWbxmlTblOk Proofs.EncWbxmlDenote3 Proofs.EncWbxmlAbs4 Proofs.EncWbxmlDenote4 Proofs.EncWbxmlAbs5 Model.EncWbxmlTables.
+     Model.EncWbxmlEvents Proofs.EncWbxmlTblOk Proofs.EncWbxmlDenote3 Proofs.EncWbxmlAbs4 Proofs.EncWbxmlDenote4 Proofs.EncWbxmlAbs5 Model.EncWbxmlTables Proofs.EncWbxmlDenote5 Proofs.EncWbxmlCanon.
 From Wbxml Require Model.Parser Model.Spec.
 Import ListNotations.
 Local Open Scope N_scope.
@@ -447,3 +447,66 @@ Theorem C06_all_tables_have_wellformed_tag_tokens : forall o,
   forallb (fun l => tag_tbl_ok (enc_env l o)) main_btable = true.
 Proof. exact all_tables_tag_ok. Qed.
 Print Assumptions C06_all_tables_have_wellformed_tag_tokens.
+
+(* TYPED VALUES, first class: the languages WITHOUT TYPED CONTENT — the plain ones plus SI 1.0 and EMN 1.0, whose %Datetime
+   attributes (SI created / si-expires, EMN timestamp) the encoder writes as an OPAQUE holding the BCD digits of the value
+   with the trailing zero octets removed, and the decoder prints as ISO 8601 text.  The decoded events are the events of
+   the normalised tree (events5: names, attributes in order, text; byte arrays of binary-flagged elements as they are)
+   in which the value of every %Datetime attribute is replaced by canon_dt (value) = Spec.spec_datetime (payload of the
+   value): "typed date-time values are compared by the instant they denote".  canon_dt is a normal form
+   (C06_canon_datetime_idempotent), e.g. "1999-06-25" and "1999-06-25T00:00:00Z" both become "1999-06-25T00:00:00Z"
+   (examples below).  Everything else as in the _binary_partial theorem (string table on / off, literal names, byte
+   arrays), modulo merge_chars on text.
+   Hypotheses: class5 (not WV, DRMREL, SyncML, OTA settings), tree_ok5 with aok_dt (attributes as attr_ok3; a %Datetime
+   attribute has a value on which canon_dt is defined, i.e. 4 to 7 BCD octets after packing, or none) and tok_plain.
+   Proof: ONE tree induction for any class (Proofs/EncWbxmlDenote5.v: all_node_den5, over the total abstraction abs_node5
+   of the full grammar theorem), instantiated with the attribute and text lemmas of this class. *)
+Theorem C06_strict_decoding_yields_normalised_source_typed_datetime_partial : forall tblb TBL L o tag attrs ch bs,
+  let e := enc_env (to_blang L) o in
+  class5 e = true -> vals_ok L = true -> l_exts L = None -> tag_tbl_ok e = true ->
+  tree_ok5 L (aok_dt L) tok_plain 0 true None (NElt tag attrs ch) = true ->
+  find (fun x => l_id x =? l_id L) TBL = Some L ->
+  o_version o < 4 -> header_public_id e < 4294967296 -> header_public_id e <> 0 ->
+  (match header_pid e with Some p => okb p = true | None => True end) ->
+  len bs < 4294967296 ->
+  enc_wbxml tblb (to_blang L) o [NElt tag attrs ch] = EOk bs ->
+  exists d evs, bs = Spec.serialize d /\ Spec.strict_doc d = true /\
+            Spec.denote_with TBL (Some L) d = Some evs /\ Spec.decode_lang TBL (l_id L) bs = Some evs /\
+            merge_chars evs = merge_chars (doc_events5 L e (o_keep_ws o) (NElt tag attrs ch)).
+Proof. exact strict_decode_of_encoding5. Qed.
+Print Assumptions C06_strict_decoding_yields_normalised_source_typed_datetime_partial.
+
+(* canon_dt is a normal form: the canonical text of a value is its own canonical text *)
+Theorem C06_canon_datetime_idempotent : forall v o, canon_dt v = Some o -> canon_dt o = Some o.
+Proof. exact canon_dt_idem. Qed.
+Print Assumptions C06_canon_datetime_idempotent.
+
+(* where it matters: a date without time, a date-time whose time is all zeros (the zero octets are not written), a
+   canonical text; and a value that is no date-time for the decoder (fewer than 4 octets) *)
+Example C06_canon_datetime_examples :
+  canon_dt (Parser.B "1999-06-25") = Some (Parser.B "1999-06-25T00:00:00Z") /\
+  canon_dt (Parser.B "1999-06-25T00:00:00Z") = Some (Parser.B "1999-06-25T00:00:00Z") /\
+  dt_payload (Parser.B "1999-06-25T00:00:00Z") = Some [25; 153; 6; 37] /\
+  canon_dt (Parser.B "1999-04-30T06:40:00Z") = Some (Parser.B "1999-04-30T06:40:00Z") /\
+  canon_dt (Parser.B "19990430T0640") = Some (Parser.B "1999-04-30T06:40:00Z") /\
+  canon_dt (Parser.B "1999") = None.
+Proof. repeat split; vm_compute; reflexivity. Qed.
+
+(* an SI document: created="1999-06-25" is written 0A C3 04 19 99 06 25 and decoded as "1999-06-25T00:00:00Z" *)
+Example C06_si_datetime_example :
+  let L := mk_lang 1301 5 None None None (Some [mk_tag "si"%string 0 5 0]) None
+                   (Some [mk_attr "created"%string None 0 10; mk_attr "class"%string None 0 17]) None None in
+  let o := mk_opts 3 false false false in
+  let t := NElt (TagTok 0 5 0 (Parser.B "si")) [mk_at (AttrTok 0 10 (Parser.B "created") None) (Parser.B "1999-06-25");
+                                                  mk_at (AttrTok 0 17 (Parser.B "class") None) (Parser.B "x")] [] in
+  class5 (enc_env (to_blang L) o) = true /\ tag_tbl_ok (enc_env (to_blang L) o) = true /\
+  tree_ok5 L (aok_dt L) tok_plain 0 true None t = true /\
+  enc_wbxml [] (to_blang L) o [t] = EOk [3; 5; 106; 0; 133; 10; 195; 4; 25; 153; 6; 37; 17; 3; 120; 0; 1] /\
+  Spec.decode_lang [L] 1301 [3; 5; 106; 0; 133; 10; 195; 4; 25; 153; 6; 37; 17; 3; 120; 0; 1]
+    = Some (doc_events5 L (enc_env (to_blang L) o) false t) /\
+  doc_events5 L (enc_env (to_blang L) o) false t
+    = [Parser.EvStartDoc 106 1301;
+       Parser.EvStartElt (Parser.TagTok 0 5 (Parser.B "si")) [(Parser.AttrTok 0 10 (Parser.B "created"), Parser.B "1999-06-25T00:00:00Z");
+                                                               (Parser.AttrTok 0 17 (Parser.B "class"), Parser.B "x")];
+       Parser.EvEndElt (Parser.TagTok 0 5 (Parser.B "si")); Parser.EvEndDoc].
+Proof. cbv zeta. repeat split; vm_compute; reflexivity. Qed.
